@@ -190,17 +190,21 @@ inductive Field where
   | numContours
   /-- maxp.maxCompositePoints / maxCompositeContours of a composite (input: the true total over its components) -/
   | compositeTotal
+  /-- bounding box entry of a COMPOSITE glyph (glyph header, head xMin…, and its lsb): computed from the transformed
+      component outlines, `Bbox::from(Rect)` = `ot_round()` : i16 (fontbe/src/glyphs.rs compute_composite_bboxes) -/
+  | compositeBbox
   deriving DecidableEq, Repr, Inhabited
 
 def Field.all : List Field :=
   [.outlineCoord, .pointDelta, .compOffset, .comp2x2, .advance, .lsb, .tsb, .rsbExtent, .kernValue, .anchorCoord,
    .valueDelta, .gvarDelta, .hvarDelta, .metricI16, .metricU16, .glyphCount, .longMetricCount, .countU16, .endPt,
-   .numContours, .compositeTotal]
+   .numContours, .compositeTotal, .compositeBbox]
 
 /-- a count as the code sees it: a `usize` -/
 def cnt (v : Rat) : Int := (v.floor.toNat : Int)
 
-/-- `fieldPipelineOld f v p`: what the code does with source value `v` destined for field `f` under profile `p`. -/
+/-- `fieldPipelineOld f v p`: what the code did BEFORE the fixes d8817db / 944e88e / f8fa190 (fontc 61b7940) with source value `v`
+    destined for field `f` under profile `p`. Kept for history: its counterexamples are the defects F7 / F8. -/
 def fieldPipelineOld : Field → Rat → Profile → Outcome
   | .outlineCoord, v, _ => .ok (otRoundI16 v : Int)
   | .pointDelta, v, p => subI16 p v.floor 0
@@ -223,12 +227,13 @@ def fieldPipelineOld : Field → Rat → Profile → Outcome
   | .endPt, v, p => subU16 p (wrapU16 (cnt v)) 1
   | .numContours, v, _ => if cnt v ≤ 32766 then .ok (cnt v : Int) else .panic   -- `len < i16::MAX`
   | .compositeTotal, v, p => addU16 p 0 (cnt v)
+  | .compositeBbox, v, _ => .ok (otRoundI16 v : Int)
 
 /-- The value the field is MEANT to carry: the format's own rounding rule applied to the source value, in
     unbounded integers (no saturation, no wrap). -/
 def ideal : Field → Rat → Rat
   | .outlineCoord, v | .compOffset, v | .advance, v | .lsb, v | .kernValue, v | .anchorCoord, v
-  | .valueDelta, v | .gvarDelta, v | .hvarDelta, v | .metricI16, v | .metricU16, v => (otRound v : Int)
+  | .valueDelta, v | .gvarDelta, v | .hvarDelta, v | .metricI16, v | .metricU16, v | .compositeBbox, v => (otRound v : Int)
   | .comp2x2, v => ((roundHalfAway (v * 16384) : Int) : Rat) / 16384
   | .endPt, v => (cnt v - 1 : Int)
   | .pointDelta, v | .tsb, v | .rsbExtent, v => (v.floor : Int)
@@ -238,7 +243,7 @@ def ideal : Field → Rat → Rat
     code-imposed limit tighter than the format's — 2×2 entries, contour count, end points — the code accepts it). -/
 def Representable : Field → Rat → Prop
   | .outlineCoord, v | .compOffset, v | .lsb, v | .kernValue, v | .anchorCoord, v
-  | .valueDelta, v | .gvarDelta, v | .hvarDelta, v | .metricI16, v => inI16 (otRound v)
+  | .valueDelta, v | .gvarDelta, v | .hvarDelta, v | .metricI16, v | .compositeBbox, v => inI16 (otRound v)
   | .advance, v | .metricU16, v => inU16 (otRound v)
   | .pointDelta, v | .tsb, v | .rsbExtent, v => inI16 v.floor
   | .comp2x2, v => -2 ≤ v ∧ roundHalfAway (v * 16384) ≤ 32767
@@ -263,6 +268,79 @@ def RejectsOrExactOld (f : Field) (v : Rat) (p : Profile) : Prop :=
 
 instance (f : Field) (v : Rat) (p : Profile) : Decidable (RejectsOrExactOld f v p) := by
   unfold RejectsOrExactOld; split <;> infer_instance
+
+/-! ## 3b. The pipeline of the CURRENT code (after the fixes)
+
+  d8817db  fontbe/src/glyphs.rs: `check_path_bounds` (outline coordinates of every master), `check_encodable` (successive
+           point differences of the default outline, more than 65535 points), component offsets at the default
+           location, every non-default gvar delta — `Error::OutOfBounds` instead of clamping / panicking / wrapping;
+  944e88e  fontbe/src/metrics_and_limits.rs, vertical_metrics.rs, metric_variations.rs: advance width / height, HVAR / VVAR
+           deltas, `u16::try_from` for the maxp counts, `checked_add` for the composite totals;
+  f8fa190  fontbe/src/features.rs `round_to_i16` (+ `DeltaError::OutOfRange`): kerning / anchor values and deltas.
+  NOT changed: top side bearing (unchecked i16 `-`), hhea/vhea min second side bearing and max extent (explicit clamp),
+  composite bounding boxes (saturating), fontinfo metrics (saturating `ot_round()`), 2.14 saturation on [2-2^-15, 2]. -/
+
+/-- a range check added by the fixes: the value or `Error::OutOfBounds` -/
+def checkedI16 (r : Int) : Outcome := if inI16 r then .ok (r : Int) else .err
+def checkedU16 (r : Int) : Outcome := if inU16 r then .ok (r : Int) else .err
+
+/-- `fieldPipeline f v p`: what the code does NOW with source value `v` destined for field `f` under profile `p`. -/
+def fieldPipeline : Field → Rat → Profile → Outcome
+  | .outlineCoord, v, _ => checkedI16 (otRound v)
+  | .pointDelta, v, _ => checkedI16 v.floor
+  | .compOffset, v, _ => checkedI16 (otRound v)
+  | .comp2x2, v, _ => if -2 ≤ v ∧ v ≤ 2 then .ok (f2dot14ToRat (f2dot14FromF64 v)) else .fallback
+  | .advance, v, _ => checkedU16 (otRound v)
+  -- xMin of a simple glyph: the minimum of coordinates that all passed `check_path_bounds`
+  | .lsb, v, _ => checkedI16 (otRound v)
+  | .tsb, v, p => subI16 p v.floor 0
+  | .rsbExtent, v, _ => .ok (satI16 v.floor : Int)
+  | .kernValue, v, _ => checkedI16 (otRound v)
+  | .anchorCoord, v, _ => checkedI16 (otRound v)
+  | .valueDelta, v, _ => checkedI16 (otRound v)
+  | .gvarDelta, v, _ => checkedI16 (otRound v)
+  | .hvarDelta, v, _ => checkedI16 (otRound v)
+  | .metricI16, v, _ => .ok (otRoundI16 v : Int)
+  | .metricU16, v, _ => .ok (otRoundU16 v : Int)
+  | .glyphCount, v, _ => if cnt v ≤ 65535 then .ok (cnt v : Int) else .panic
+  | .longMetricCount, v, _ => if cnt v ≤ 65535 then .ok (cnt v : Int) else .err
+  | .countU16, v, _ => checkedU16 (cnt v)
+  -- `assert!(!contour.is_empty())` (glyphs.rs) for 0 points; more than 65535 points rejected by `check_encodable`
+  | .endPt, v, _ => if cnt v = 0 then .panic else if cnt v ≤ 65535 then .ok ((cnt v - 1 : Int) : Rat) else .err
+  | .numContours, v, _ => if cnt v ≤ 32766 then .ok (cnt v : Int) else .panic   -- `len < i16::MAX`
+  | .compositeTotal, v, _ => checkedU16 (cnt v)
+  | .compositeBbox, v, _ => .ok (otRoundI16 v : Int)
+
+/-- The fields the fixes did not touch and on which a differing value can still be emitted. -/
+def isOpen : Field → Bool
+  | .tsb | .rsbExtent | .compositeBbox | .metricI16 | .metricU16 | .comp2x2 => true
+  | _ => false
+
+/-- The only field that still contains an unchecked fixed-width subtraction. -/
+def profileSensitive : Field → Bool
+  | .tsb => true
+  | _ => false
+
+def Overflows : Field → Rat → Prop
+  | .tsb, v => ¬ inI16 v.floor
+  | _, _ => False
+
+instance (f : Field) (v : Rat) : Decidable (Overflows f v) := by
+  cases f <;> unfold Overflows <;> infer_instance
+
+/-- The property, per field, of the current code: the build fails, falls back, or the emitted value is the ideal one. -/
+def RejectsOrExact (f : Field) (v : Rat) (p : Profile) : Prop :=
+  match fieldPipeline f v p with
+  | .ok w => w = ideal f v
+  | _ => True
+
+instance (f : Field) (v : Rat) (p : Profile) : Decidable (RejectsOrExact f v p) := by
+  unfold RejectsOrExact; split <;> infer_instance
+
+/-- `checked_add` fold of the composite totals (saturate, remember the overflow, report it at the end). -/
+def foldCheckedAdd : Int → Bool → List Int → Outcome
+  | acc, ovf, [] => if ovf then .err else .ok (acc : Rat)
+  | acc, ovf, e :: es => if acc + e ≤ 65535 then foldCheckedAdd (acc + e) ovf es else foldCheckedAdd 65535 true es
 
 /-! ## 4. End-to-end predictions used by the driver (compositions of the stages above) -/
 
@@ -290,9 +368,10 @@ instance (f : Field) (v : Rat) : Decidable (OverflowsOld f v) := by
   cases f <;> unfold OverflowsOld <;> infer_instance
 
 
-/-- the nine fields narrowed by `ot_round()` into an i16 -/
+/-- the ten fields narrowed by `ot_round()` into an i16 (before the fixes) -/
 def isI16Round : Field → Bool
-  | .outlineCoord | .compOffset | .lsb | .kernValue | .anchorCoord | .valueDelta | .gvarDelta | .hvarDelta | .metricI16 => true
+  | .outlineCoord | .compOffset | .lsb | .kernValue | .anchorCoord | .valueDelta | .gvarDelta | .hvarDelta | .metricI16
+  | .compositeBbox => true
   | _ => false
 
 def isU16Round : Field → Bool
@@ -312,6 +391,10 @@ instance : (last : Int) → (xs : List Int) → Decidable (DiffsFit last xs)
     have := instDecidableDiffsFit x xs
     infer_instance
 
+
+/-- the glyf encoder behind `check_encodable` (current code): rejected unless every successive difference fits -/
+def encodeDeltasChecked (p : Profile) (xs : List Int) : Option (List Int) :=
+  if DiffsFit 0 xs then encodeDeltas p 0 xs else none
 
 /-- sum of a list of counts -/
 def listSum : List Int → Int
